@@ -24,8 +24,8 @@ typedef std::vector<char> Dense;
 static std::string dense_str(const Dense &d) { std::string s; for (size_t i = 0; i < d.size(); i++) if (d[i]) s += std::to_string(i) + " "; return s; }
 static std::string v2_str(const V2 &v) { std::string s; for (auto x : v) s += std::to_string(x) + " "; return s; }
 
-static bool same(const V2 &v, const Dense &d, std::string &why) {
-    std::vector<size_t> want; for (size_t i = 0; i < d.size(); i++) if (d[i]) want.push_back(i);
+static bool same(const V2 &v, const Dense &d, size_t B, std::string &why) {
+    std::vector<size_t> want; for (size_t i = 0; i < d.size(); i++) if (d[i]) want.push_back(B + i);
     std::vector<size_t> got(v.begin(), v.end());
     for (size_t i = 1; i < got.size(); i++) if (!(got[i - 1] < got[i])) { why = "coordinates not strictly increasing: " + v2_str(v); return false; }
     if (got != want) { why = "contents {" + v2_str(v) + "} differ from dense model {" + dense_str(d) + "}"; return false; }
@@ -41,6 +41,9 @@ static void mode_c17(const Args &a) {
         CaseOut co(i);
         size_t D = (size_t) r.range(1, (ll) a.geti("max_dim", 300));
         if (r.chance(0.3)) D = (size_t) r.range(1, 8);
+        // coordinates are B+q: the dense model is indexed by q, the library sees indices around 2^8, 2^16, 2^31, 2^32, 2^40 (narrowing bugs)
+        static const size_t bases[] = {0, 0, 0, 250, 65530, 2147483640ULL, 4294967290ULL, 1099511627776ULL};
+        const size_t B = bases[r.below(8)];
         int pool = (int) r.range(2, 8);
         int nops = (int) r.range(1, (ll) a.geti("max_ops", 200));
         std::vector<V2> vs(pool); std::vector<Dense> ds(pool, Dense(D, 0));
@@ -49,12 +52,12 @@ static void mode_c17(const Args &a) {
             std::string h; for (auto &x : hist) h += x + "; ";
             co.viol("spvecgf2:" + kind, msg, J().num("dimension", (ll) D).num("pool", pool).str("history", h).done(), "history seed=" + std::to_string(a.seed) + " case=" + std::to_string(i));
             bad = true; };
-        auto randset = [&](std::set<size_t> &st, Dense &d) { d.assign(D, 0); double p = r.real(); for (size_t q = 0; q < D; q++) if (r.chance(p * p)) { st.insert(q); d[q] = 1; } };
+        auto randset = [&](std::set<size_t> &st, Dense &d) { d.assign(D, 0); double p = r.real(); for (size_t q = 0; q < D; q++) if (r.chance(p * p)) { st.insert(B + q); d[q] = 1; } };
         for (int op = 0; op < nops && !bad; op++) {
             int x = (int) r.below(pool), y = (int) r.below(pool), z = (int) r.below(pool);
             int kind = (int) r.below(14); std::string why; std::string name;
             switch (kind) {
-            case 0: { size_t q = r.below(D); name = "unit"; hist.push_back("v" + std::to_string(x) + "=unit(" + std::to_string(q) + ")"); vs[x] = V2(q); ds[x].assign(D, 0); ds[x][q] = 1; break; }
+            case 0: { size_t q = r.below(D); name = "unit"; hist.push_back("v" + std::to_string(x) + "=unit(" + std::to_string(q) + ")"); vs[x] = V2(B + q); ds[x].assign(D, 0); ds[x][q] = 1; break; }
             case 1: { std::set<size_t> st; Dense d; randset(st, d); name = "from_set"; hist.push_back("v" + std::to_string(x) + "=fromset(|" + std::to_string(st.size()) + "|)"); V2 t(st); vs[x] = t; ds[x] = d; break; }
             case 2: { name = "copy_construct"; hist.push_back("v" + std::to_string(x) + "=copy(v" + std::to_string(y) + ")"); V2 t(vs[y]); Dense d = ds[y]; vs[x] = t; ds[x] = d; break; }
             case 3: { name = "move_construct"; hist.push_back("v" + std::to_string(x) + "=V(move(v" + std::to_string(y) + ")); v" + std::to_string(y) + ".clear()"); Dense d = ds[y]; V2 t(std::move(vs[y]));
@@ -73,10 +76,10 @@ static void mode_c17(const Args &a) {
             default: { name = "chain"; hist.push_back("v" + std::to_string(z) + "=(v" + std::to_string(x) + "+v" + std::to_string(y) + ")+v" + std::to_string(z)); Dense d(D); for (size_t q = 0; q < D; q++) d[q] = ds[x][q] ^ ds[y][q] ^ ds[z][q]; vs[z] = (vs[x] + vs[y]) + vs[z]; ds[z] = d; break; }
             }
             opcount[name]++; ops_total++;
-            for (int q = 0; q < pool && !bad; q++) if (!same(vs[q], ds[q], why)) fail("contents", "after '" + hist.back() + "': v" + std::to_string(q) + " " + why);
+            for (int q = 0; q < pool && !bad; q++) if (!same(vs[q], ds[q], B, why)) fail("contents", "after '" + hist.back() + "': v" + std::to_string(q) + " " + why + " [coordinate base " + std::to_string(B) + "]");
         }
         co.hash = mix(case_seed(a.seed, "C17h", i), D); co.nontrivial = nops >= 5;
-        co.tag(D <= 8 ? "dim<=8" : D <= 64 ? "dim<=64" : "dim>64");
+        co.tag(D <= 8 ? "dim<=8" : D <= 64 ? "dim<=64" : "dim>64"); co.tag(B == 0 ? "base:0" : B < 70000 ? "base:2^8..2^16" : "base:>=2^31");
         if ((int) (i - a.from) < a.samples) { std::string h; for (size_t q = 0; q < hist.size() && q < 12; q++) h += hist[q] + "; "; co.sample = J().num("dimension", (ll) D).num("pool", pool).num("operations", nops).str("history_prefix", h).done(); }
         co.end();
     }
